@@ -150,9 +150,13 @@ where {
 
 impl<D: DataMut> ReaderFrom for GLWESwitchingKeyCompressed<D> {
     fn read_from<R: std::io::Read>(&mut self, reader: &mut R) -> std::io::Result<()> {
-        self.input_degree = Degree(reader.read_u32::<LittleEndian>()?);
-        self.output_degree = Degree(reader.read_u32::<LittleEndian>()?);
-        self.key.read_from(reader)
+        // Commit the header only once the key has been read: a failed read must not leave `self` half updated.
+        let input_degree = Degree(reader.read_u32::<LittleEndian>()?);
+        let output_degree = Degree(reader.read_u32::<LittleEndian>()?);
+        self.key.read_from(reader)?;
+        self.input_degree = input_degree;
+        self.output_degree = output_degree;
+        Ok(())
     }
 }
 
